@@ -273,6 +273,14 @@ def pcrLoop : Nat → List Stmt → Outcome (List Stmt)
 
 /-! #### addresses -/
 
+/-- the check made in the address loop (fix for finding B1): the image is one contiguous block loaded at one origin, so
+an ORG must come before the first label and the first byte of the program. `laid` = some earlier statement emits bytes
+or carries a label that stands for an address. -/
+def orgOK : List Stmt → Bool → Bool
+  | [], _ => true
+  | s :: rest, laid =>
+    !(s.row.isOrigin && laid) && orgOK rest (laid || decide (0 < s.pkg.size) || (!s.label.isEmpty && !s.row.isPseudoDefine))
+
 /-- `set_address` + `address += size` over all statements -/
 def assignAddrs : List Stmt → Nat → Outcome (List Stmt)
   | [], _ => .ok []
@@ -506,6 +514,7 @@ def assemble (fs : Files) (lines : List Str) : Outcome Assembly :=
           | some ss2 =>
             match pcrLoop (ss2.length + 1) ss2 with
             | .ok ss3 =>
+              if !orgOK ss3 false then .diag else                -- "ORG must come before the first label and the first byte"
               match assignAddrs ss3 0 with
               | .ok ss4 =>
                 match fixAll ss4 0 ss4 with
